@@ -116,6 +116,10 @@ class World:
         for f in self.both():
             f.utime(path, mtime)
 
+    def ext_chmod(self, path, perm):
+        for f in self.both():
+            f.chmod(path, perm)
+
     def ext_remove(self, path):
         for f in self.both():
             f.remove(path)
